@@ -126,6 +126,22 @@ class SymEval:
             r = self.h.index(base, idx, e)
             if r is not NotImplemented:
                 return r
+            if isinstance(base, tuple) and base[0] == "list":
+                if isinstance(idx, int):
+                    if idx >= len(base[1]):
+                        raise Panic("index %d out of range (len %d)" % (idx, len(base[1])))
+                    return base[1][idx]
+                if isinstance(idx, tuple) and idx[0] == "range":
+                    rg = idx[1]
+                    lo = self.ev(rg[1], env) if rg[1] is not None else 0
+                    hi = self.ev(rg[2], env) if rg[2] is not None else len(base[1])
+                    if rg[3]:
+                        hi += 1
+                    if not (isinstance(lo, int) and isinstance(hi, int)):
+                        self.fail("symbolic slice bounds", e)
+                    if lo > hi or hi > len(base[1]):
+                        raise Panic("slice [%d..%d] out of range (len %d)" % (lo, hi, len(base[1])))
+                    return ("list", base[1][lo:hi])
             self.fail("index", e)
         if k == "binary":
             op = e[1]
@@ -178,6 +194,10 @@ class SymEval:
             r = self.h.call(p, args, e)
             if r is not NotImplemented:
                 return r
+            if p.endswith("fmt::format") or p.endswith("must_use") or p.endswith("hint::must_use"):
+                return args[0]
+            if p in ("String::new", "::alloc::string::String::new", "std::string::String::new"):
+                return ("fmt", [])
             if "::" in p and p.split("::")[-1][:1].isupper():
                 return ("enum", "::".join(p.split("::")[-2:]), args)
             self.fail("call", e)
@@ -223,6 +243,21 @@ class SymEval:
             self.fail("no match arm applies", e)
         if k == "macro" and e[1] in ("panic", "unreachable", "todo", "unimplemented"):
             raise Panic(e[1])
+        if k == "macro" and e[1] == "format_args" and e[3]:
+            a = e[3]
+            if not (a[0][0] == "lit" and a[0][1] == "str"):
+                self.fail("format_args without a literal format string", e)
+            vals = [self.ev(x, env) for x in a[1:]]
+            return fmtseq(a[0][2], vals)
+        if k == "for":
+            it = self.ev(e[2], env)
+            if not (isinstance(it, tuple) and it[0] == "list"):
+                self.fail("for over a non-list %r" % (it,), e[2])
+            for item in it[1]:
+                if self.match_pat(e[1], item, env) is not True:
+                    self.fail("for pattern", e[1])
+                self.block(e[3], env)
+            return UNIT
         if k in ("vec", "array"):
             return ("list", [self.ev(x, env) for x in e[1]])
         if k == "struct":
@@ -257,6 +292,37 @@ class SymEval:
         r = self.h.mcall(recv, m, args, e, self)
         if r is not NotImplemented:
             return r
+        if isinstance(recv, tuple) and recv[0] == "list":
+            items = recv[1]
+            name = path_of(e[1])
+            if m in ("push", "extend", "append") and name is not None and name in env:
+                if m == "push":
+                    env[name] = ("list", items + [args[0]])
+                else:
+                    if not (isinstance(args[0], tuple) and args[0][0] == "list"):
+                        self.fail("extend with a non-list", e)
+                    env[name] = ("list", items + list(args[0][1]))
+                return UNIT
+            if m in ("iter", "iter_mut", "into_iter", "collect", "as_slice", "to_vec", "cloned", "copied", "as_ref"):
+                return recv
+            if m == "map" and len(args) == 1:
+                return ("list", [self.apply(args[0], [x]) for x in items])
+            if m == "join" and len(args) == 1:
+                return ("join", items, args[0])
+            if m == "len":
+                return len(items)
+            if m == "is_empty":
+                return not items
+            if m == "first":
+                return ("some", items[0]) if items else NONE
+            if m == "last":
+                return ("some", items[-1]) if items else NONE
+            if m == "get" and isinstance(args[0], int):
+                return ("some", items[args[0]]) if args[0] < len(items) else NONE
+            if m == "skip" and isinstance(args[0], int):
+                return ("list", items[args[0]:])
+            if m == "chain" and isinstance(args[0], tuple) and args[0][0] == "list":
+                return ("list", items + list(args[0][1]))
         # Option / Result combinators
         if recv == NONE or (isinstance(recv, tuple) and recv[0] == "some"):
             some = recv[0] == "some"
@@ -358,6 +424,32 @@ class SymEval:
                         res = None
                 return res
             return None
+        if k == "p_slice":
+            if not (isinstance(v, tuple) and v[0] == "list"):
+                return None
+            pats = pat[1]
+            rest_i = [i for i, p in enumerate(pats) if p[0] == "p_rest" or (p[0] == "p_ident" and p[4] is not None and p[4][0] == "p_rest")]
+            items = v[1]
+            if not rest_i:
+                if len(items) != len(pats):
+                    return False
+                pairs = list(zip(pats, items))
+            else:
+                ri = rest_i[0]
+                before, after = pats[:ri], pats[ri + 1:]
+                if len(items) < len(before) + len(after):
+                    return False
+                pairs = list(zip(before, items[:len(before)])) + (list(zip(after, items[len(items) - len(after):])) if after else [])
+                if pats[ri][0] == "p_ident":
+                    env[pats[ri][1]] = ("list", items[len(before):len(items) - len(after)])
+            res = True
+            for p, x in pairs:
+                r = self.match_pat(p, x, env)
+                if r is False:
+                    return False
+                if r is None:
+                    res = None
+            return res
         if k == "p_path":
             name = "::".join(pat[1].split("::")[-2:])
             if pat[1].split("::")[-1] == "None":
@@ -399,6 +491,59 @@ class SymEval:
 
     def shape(self, v):
         return v == NONE or (isinstance(v, tuple) and v and v[0] in ("some", "ok", "err", "none"))
+
+
+def fmtseq(fmt, vals):
+    """format string with explicit positional holes -> ("fmt", [text | ("hole", value, spec)])"""
+    import re
+    out = []
+    pos = 0
+    auto = 0
+    for m in re.finditer(r"\{\{|\}\}|\{(\d*)(:[^}]*)?\}", fmt):
+        if m.start() > pos:
+            out.append(fmt[pos:m.start()])
+        tok = m.group(0)
+        if tok == "{{":
+            out.append("{")
+        elif tok == "}}":
+            out.append("}")
+        else:
+            idx = int(m.group(1)) if m.group(1) else auto
+            if not m.group(1):
+                auto += 1
+            if idx >= len(vals):
+                raise Anchor("format string refers to a missing argument")
+            out.append(("hole", vals[idx], m.group(2) or ""))
+        pos = m.end()
+    if pos < len(fmt):
+        out.append(fmt[pos:])
+    return ("fmt", out)
+
+
+def flatten_fmt(v):
+    """nested fmt values -> flat list of text pieces and leaf values, adjacent text merged"""
+    out = []
+
+    def go(x):
+        if isinstance(x, tuple) and x and x[0] == "fmt":
+            for p in x[1]:
+                if isinstance(p, str):
+                    out.append(p)
+                else:
+                    if isinstance(p[1], tuple) and p[1] and p[1][0] == "fmt" and p[2] == "":
+                        go(p[1])
+                    else:
+                        out.append((p[1], p[2]))
+        else:
+            out.append((x, ""))
+    go(v)
+    merged = []
+    for p in out:
+        if isinstance(p, str) and merged and isinstance(merged[-1], str):
+            merged[-1] += p
+        elif p != "":
+            merged.append(p)
+    return merged
 
 
 class Hooks:
